@@ -1,0 +1,34 @@
+//go:build verif
+
+// Contracts for package searcher: geo searchers (read by /verif/gocv; comment-only effect with the
+// verif tag off).
+
+package searcher
+
+// ---------------------------------------------------------------------------
+// C18: a box that crosses the date line is searched as two proper boxes
+// ---------------------------------------------------------------------------
+
+// A bounding-box searcher is only ever built for a proper rectangle: min <= max in both
+// coordinates, longitudes in [-180, 180]. (Its own body - cell recursion, s2 plugin - is not under
+// contract: trusted.)
+//@ func NewGeoBoundingBoxSearcher
+//@   props C18
+//@   mode bv
+//@   trusted cell recursion / s2 tokens / multi-term searcher construction are not under contract
+//@   requires -180 <= minLon && minLon <= maxLon && maxLon <= 180 && minLat <= maxLat
+//@   ensures implies(result1 == nil, result0 != nil)
+//@ func NewDisjunctionSearcher
+//@   props C18
+//@   mode bv
+//@   trusted searcher construction is not under contract
+//@   ensures implies(result1 == nil, result0 != nil)
+//@ assume func search.Searcher.Close(s)
+
+// boxSearcher(topLeft, bottomRight): when the right edge lies west of the left edge the box crosses
+// the date line and is split at +-180; each part keeps the latitude range [bottomRightLat, topLeftLat].
+//@ func boxSearcher
+//@   props C18
+//@   mode bv
+//@   requires -180 <= topLeftLon && topLeftLon <= 180 && -180 <= bottomRightLon && bottomRightLon <= 180 && bottomRightLat <= topLeftLat
+//@   ensures implies(result1 == nil, result0 != nil)
